@@ -106,6 +106,17 @@ def _u_term(cname, sym, items):
     return f
 
 
+def _u_term_int(cname, sym, items, scale):
+    """term with plain Python ints as numeric items (items: (int | unit symbol, exponent)); scale given by the caller"""
+    def f(L):
+        from quantity.term import Term
+        cls = L.classes[cname]
+        titems = [((L.units[el][0] if isinstance(el, str) else el), e) for el, e in items]
+        u = cls.new_unit(sym, None, Term(titems))
+        L.units[sym] = (u, cname, scale)
+    return f
+
+
 def _u_plain(cname, sym):
     def f(L):
         u = L.classes[cname].new_unit(sym, sym + ' name')
@@ -133,6 +144,8 @@ VALID = [
     ('unit-ab-derive-gensym', ('DAB', 'a1'), _u_derive('DAB', None, ['a1', 'b0'], [1, -1], explicit_symbol=False)),
     ('unit-ab-term', ('DAB', 'a1'), _u_term('DAB', 'abt', [('a1', 1), ('b0', -1)])),
     ('unit-ab-term-num', ('DAB', 'a1', 'b1'), _u_term('DAB', 'abn', [('2.5', 1), ('a1', 1), ('b1', -1)])),
+    ('unit-a-term-int-neg', ('DA', 'a1'), _u_term_int('DA', 'a1k', [(1000, -1), ('a1', 1)], Fraction(3, 1000))),
+    ('unit-a-term-int-neg3', ('DA', 'a1'), _u_term_int('DA', 'a1c', [(10, -3), ('a1', 1), (7, 1)], Fraction(21, 1000))),
     ('unit-sq-derive', ('DA2', 'a1'), _u_derive('DA2', 'a1²x', ['a1'], [2])),
     ('unit-sq-term3', ('DA2', 'a1'), _u_term('DA2', 'sq3', [('a0', -1), ('a1', 3), ('a0', 0), ('a1', -1), ('a0', 1)])),
     ('unit-w1', ('DW',), _u_plain('DW', 'w1')),
@@ -251,6 +264,19 @@ def _inv_derive_dup_symbol(L):
     L.classes['DAB'].derive_unit_from(L.units['a0'][0], L.units['b0'][0], symbol='b0')
 
 
+def _inv_type_def_numeric_factor(L):
+    C.mk_cls('DKF', define_as=1000 * (L.classes['DA'] / L.classes['DB']), ref_unit_symbol='kf0')
+
+
+def _inv_type_def_of_units(L):
+    from quantity.term import Term
+    C.mk_cls('DKU', define_as=Term(((L.units['a0'][0], 1), (L.units['b0'][0], -2))), ref_unit_symbol='ku0')
+
+
+def _inv_type_def_numeric_factor_gensym(L):
+    C.mk_cls('DKG', define_as=(L.classes['DA'] ** 3) * 2)
+
+
 def _inv_type_unknown_keyword(L):
     C.mk_cls('DK', ref_unit_symbol='kw0', ref_unit_nmae='Kay')
 
@@ -270,6 +296,9 @@ INVALID = [
     ('dup-dimension-equivalent-term', ('DAB',), 'ValueError', _inv_dup_dim_equiv, ['dup2']),
     ('dup-dimension-over-reference-less-type', ('DAW',), 'ValueError', _inv_dup_dim_noref, ['awdup']),
     ('dup-dimension-over-reference-less-type-no-symbol', ('DAW',), 'ValueError', _inv_dup_dim_noref_nosym, []),
+    ('type-def-numeric-factor', ('DA', 'DB'), 'AssertionError', _inv_type_def_numeric_factor, ['kf0']),
+    ('type-def-of-units', ('DA', 'DB'), 'AssertionError', _inv_type_def_of_units, ['ku0']),
+    ('type-def-numeric-factor-gensym', ('DA',), 'AssertionError', _inv_type_def_numeric_factor_gensym, ['a0³']),
     ('type-unknown-keyword', (), 'AssertionError', _inv_type_unknown_keyword, ['kw0']),
     ('type-unknown-keyword-derived', ('DA',), 'AssertionError', _inv_type_unknown_keyword_derived, ['kw3']),
     ('type-quantum-without-ref-unit', (), 'AssertionError', _inv_type_quantum_without_ref_unit, []),
@@ -311,7 +340,7 @@ def produced_names(step_name):
             'unit-ab-derive': 'a1pb1', 'unit-ab-derive-gensym': 'a1/b0', 'unit-ab-term': 'abt',
             'unit-ab-term-num': 'abn', 'unit-sq-derive': 'a1²x', 'unit-sq-term3': 'sq3', 'unit-w1': 'w1',
             'unit-w2': 'w 2', 'unit-q1': 'q1', 'unit-nonascii': 'µa·x/²', 'unit-w-alias': 'w1a',
-            'unit-w-multiple': 'w1m'}[step_name]
+            'unit-w-multiple': 'w1m', 'unit-a-term-int-neg': 'a1k', 'unit-a-term-int-neg3': 'a1c'}[step_name]
 
 
 # the closure of prerequisites, in a valid order
